@@ -345,6 +345,20 @@ def run(ctx: Ctx):
                     ctx.violation("compute", "zero-thrown-nonempty", "N=0 run has rows", {"run": lab})
             except Exception as e:  # noqa
                 ctx.violation("compute", "zero-survivors-fails", f"a run in which no trajectory survives raises {type(e).__name__}: {str(e)[:120]}", {"run": lab})
+    # (e'') detector so high / limb angle so wide that the viewing geometry degenerates (every thrown trajectory is invalid):
+    # still an empty but valid table
+    for alt_d, limb_d in ((99000.0, 7.0), (35786.0, 20.0), (120000.0, 7.0)):
+        cfgd = make_cfg("Diffuse", "mono", "none", True, True, alt_d, 30)
+        cfgd.simulation.angle_from_limb = float(np.radians(limb_d))
+        lab = f"Diffuse/altitude={alt_d:g}km/limb={limb_d:g}deg"
+        try:
+            td = run_compute(cfgd, 7, "synchronous")
+            ctx.case((lab,), None)
+            ctx.count("degenerate_geometry_runs")
+            check_structure(ctx, cfgd, td, lab)
+            ctx.count(f"degenerate_geometry_rows_{len(td) if len(td.colnames) else 0}")
+        except Exception as e:  # noqa
+            ctx.violation("compute", "zero-survivors-fails", f"a run in which no trajectory survives (degenerate viewing geometry) raises {type(e).__name__}: {str(e)[:120]}", {"run": lab})
     # (e') very few survivors (0, 1, 2): one row per surviving trajectory with every stage's columns and the integral keywords
     few = {0: 0, 1: 0, 2: 0}
     for sd in range(40 if not ctx.thorough else 200):
